@@ -344,16 +344,37 @@ fn batches(cx: &mut Ctx, rng: &mut Rng, reps: usize) {
     }
 }
 
-/// handcrafted bases that guarantee every corruption of the family applies
-fn rich(dt: &DataType) -> Option<ArrayRef> {
-    let strs = vec![Some("aé"), None, Some("日本x"), Some(""), Some("😀 a long string, more than twelve bytes é"), Some("z")];
-    Some(match dt {
-        DataType::Utf8 => Arc::new(StringArray::from(strs)),
-        DataType::LargeUtf8 => Arc::new(LargeStringArray::from(strs)),
-        DataType::Utf8View => Arc::new(StringViewArray::from(strs)),
-        DataType::BinaryView => Arc::new(BinaryViewArray::from(vec![Some(&b"abc"[..]), None, Some(&b"0123456789abcdefXYZ"[..]), Some(&b""[..]), Some(&[0xFFu8; 30][..])])),
-        _ => return None,
-    })
+/// handcrafted bases that guarantee every corruption of the family applies: every value starts
+/// and ends with a multi-byte character, long (> 12 bytes) and short values alternate, one null;
+/// the second Utf8 base leaves unused (valid UTF-8) bytes before the first and after the last offset
+fn rich(dt: &DataType) -> Vec<ArrayRef> {
+    let strs = vec![Some("éaé"), Some("日本語の長い文字列です、十二バイト以上日"), None, Some("ßé"), Some("😀 a long string, more than twelve bytes é"), Some("é"), Some("日x日")];
+    let all: Vec<&str> = vec!["éaé", "日x日", "😀é", "é", "ßzß", "éé"];
+    fn padded<O: OffsetSizeTrait>(vals: &[&str]) -> ArrayRef {
+        let mut data = "é".as_bytes().to_vec();
+        let mut offs = vec![O::usize_as(data.len())];
+        for v in vals {
+            data.extend_from_slice(v.as_bytes());
+            offs.push(O::usize_as(data.len()));
+        }
+        data.extend_from_slice("é".as_bytes());
+        Arc::new(GenericStringArray::<O>::new(arrow_buffer::OffsetBuffer::new(offs.into()), Buffer::from_vec(data), None))
+    }
+    match dt {
+        DataType::Utf8 => vec![Arc::new(StringArray::from(strs)), padded::<i32>(&all)],
+        DataType::LargeUtf8 => vec![Arc::new(LargeStringArray::from(strs)), padded::<i64>(&all)],
+        DataType::Utf8View => {
+            let (l1, l2, l3) = ("日本語の長い文字列です、十二バイト以上日", "😀 a long string, more than twelve bytes é", "éééééééééééééé");
+            // long / short values at complementary positions, so that first / middle / last of both the
+            // whole and the sliced array meet a buffer-backed and an inline view
+            vec![
+                Arc::new(StringViewArray::from(vec![Some(l1), Some("éaé"), None, Some(l2), Some("ßé"), Some(l3), Some("日x日")])),
+                Arc::new(StringViewArray::from(vec![Some("éaé"), Some(l1), Some("é"), Some("ßzß"), Some(l2), Some("日x日"), Some(l3)])),
+            ]
+        }
+        DataType::BinaryView => vec![Arc::new(BinaryViewArray::from(vec![Some(&b"abc"[..]), Some(&b"0123456789abcdefXYZ"[..]), None, Some(&b""[..]), Some(&[0xFFu8; 30][..]), Some(&[0xC3u8, 0xA9][..])]))],
+        _ => vec![],
+    }
 }
 
 fn zoo() -> Vec<DataType> {
@@ -381,15 +402,14 @@ fn main() {
     let reps = args.scale(1, 16);
     for dt in zoo() {
         let fam = dump::type_desc(&dt)["k"].as_str().unwrap().to_string();
-        for rep in 0..reps {
-            let a = match (rep, rich(&dt)) {
-                (0, Some(a)) => a,
-                _ => {
-                    let len = if rep == 0 { 6 } else { rng.below(9) };
-                    let np = [30usize, 0, 60][rep % 3];
-                    mk::array(&mut rng, &dt, len, Cfg::wild(np))
-                }
-            };
+        let mut bases: Vec<ArrayRef> = rich(&dt);
+        let nrich = bases.len().max(1);
+        for rep in bases.len()..(reps + nrich - 1) {
+            let len = if rep == 0 { 6 } else { rng.below(9) };
+            let np = [30usize, 0, 60][rep % 3];
+            bases.push(mk::array(&mut rng, &dt, len, Cfg::wild(np)));
+        }
+        for (rep, a) in bases.into_iter().enumerate() {
             let data = a.to_data();
             let p0 = Parts::of(&data, &mut rng);
             let mut variants = vec![p0.clone()];
